@@ -13,7 +13,7 @@ git -C $REPO apply "$D/patch.diff" || exit 5
 rm -rf $HERE/replays/$ID
 mkdir -p /var/tmp/vp-seedlogs
 cd $HERE && ./vcheck "$ID" "$TIER" > /var/tmp/vp-seedlogs/$NAME.$ID.log 2>&1; rc=$?
-git -C $REPO checkout -- .
+git -C $REPO apply -R "$D/patch.diff" 2>/dev/null || { git -C $REPO checkout -- .; git -C $REPO clean -fdq; }   # (-R also removes files the change added)
 grep -E '^(VIOLATION|  detail|OK|INFRA)' /var/tmp/vp-seedlogs/$NAME.$ID.log | head -4
 echo "vcheck $ID $TIER on $NAME rc=$rc"
 if [ "$rc" = 1 ]; then rm -rf "$D/replays"; [ -d $HERE/replays/$ID ] && mv $HERE/replays/$ID "$D/replays"; fi
